@@ -113,9 +113,9 @@ def tok_in_range(t, dr, dc):
     return True
 
 def translate_clip(ts, dr, dc):
-    """what the code documents: a cell reference that would leave the sheet stays unchanged;
-    everything that is not a cell reference is copied"""
-    return [translate_tok(t, dr, dc) if t[0] == "R" and tok_in_range(t, dr, dc) else t for t in ts]
+    """what the code documents: a reference (cell, whole-column or whole-row range) that would
+    leave the sheet stays unchanged as a whole; everything that is not a reference is copied"""
+    return [translate_tok(t, dr, dc) if t[0] in "RCW" and tok_in_range(t, dr, dc) else t for t in ts]
 
 def in_range(ts, dr, dc):
     if not (-MAX_ROWS < dr < MAX_ROWS and -MAX_COLS < dc < MAX_COLS):
@@ -156,7 +156,8 @@ FUNCS = ["SUM", "IF", "MAX", "MIN", "AVERAGE", "VLOOKUP", "INDEX", "ROUND", "LOG
 # defined / table names the grammar accepts (none is a cell name of the sheet)
 NAMES = ["rate", "TRUE", "FALSE", "Total", "my_rate", "Sales.Total", "_x", "tax_rate", "AAAAA1", "Data2024",
          "my_A1", "Sales.Q1", "x_B2", "AAAA1", "XFE1", "A1048577", "A01", "ZZZ9", "Q1_", "_Q1", "A1.B2",
-         "\\name", "what?", "größe", "税率", "Año", "été1", "税A1", "ÉA1", "Ünï_1"]
+         "\\name", "what?", "größe", "税率", "Año", "été1", "税A1", "ÉA1", "Ünï_1", "売上Q1", "Année2024",
+         "売上_Q1", "Prévision2025"]
 # names Excel refuses (they are cell names): outside the grammar, kept for the correspondence only
 NAMES_ILLEGAL = ["tax1", "Tbl1", "a1", "xfd1048576", "Ab12"]
 SHEETS = [(0, "Sheet1"), (0, "Data"), (1, "My Sheet"), (1, "Bob's"), (0, "Sheet10"), (1, "2024 data"),
@@ -189,9 +190,11 @@ def sym_tokens(s):
     return [("Y", ch) for ch in s]
 
 class FormulaGen:
-    """formulas from the grammar; `stream` selects a known class to visit (None = known-free):
+    """formulas from the grammar; `stream` puts the weight on one feature (None = plain mix):
     "whole" = whole-column / whole-row ranges, "sheet3d" = unquoted 3-D prefix with a cell-like
-    first name; "illegal" = names outside the grammar (correspondence only)"""
+    first name; outside the grammar (correspondence only): "illegal" = names that are cell
+    names, "colon" = texts around a ':' that the grammar reads otherwise (A:B as two names,
+    1:3 as two numbers, A1:Sheet3! as a reference before a sheet prefix)"""
     def __init__(self, rng, base=(0, 0), span=12, stream=None):
         self.rng, self.base, self.span, self.stream = rng, base, span, stream
         self.used_stream = False
@@ -210,9 +213,7 @@ class FormulaGen:
     def whole(self):
         rng = self.rng
         flags = rng.choice([(0, 0), (0, 0), (1, 0), (0, 1), (1, 1)])
-        if self.stream != "whole":
-            flags = (1, 1)
-        else:
+        if self.stream == "whole":
             self.used_stream = True
         if rng.random() < 0.5:
             c1 = min(max(self.base[1] + rng.randrange(-2, self.span), 0), MAX_COLS - 1)
@@ -226,13 +227,29 @@ class FormulaGen:
             self.used_stream = True
             return ("T",) + rng.choice(SHEET3D_CELL)
         if rng.random() < 0.08:
-            return ("T",) + rng.choice(SHEET3D)
+            return ("T",) + rng.choice(SHEET3D + SHEET3D_CELL)
         q, n = rng.choice(SHEETS)
         return ("S", q, n)
+
+    def colon_text(self):
+        """outside the grammar: the same characters as a range / prefix, tokenised otherwise"""
+        rng = self.rng
+        self.used_stream = True
+        return rng.choice([
+            [("N", "A"), ("Y", ":"), ("N", "B")], [("N", "xfd"), ("Y", ":"), ("N", "A")],
+            [("M", "1", None, None), ("Y", ":"), ("M", "3", None, None)],
+            [("M", "1", "5", (False, "3")), ("Y", ":"), ("M", "4", None, None)],
+            [self.ref(), ("Y", ":"), ("S", 0, "Sheet3"), self.ref()],
+            [("E", 6), ("Y", ":"), ("N", "B")], [("N", "A"), ("Y", ":"), ("F", "IF"), self.ref(), ("Y", ")")],
+            [("N", "A"), ("Y", ":"), ("M", "3", None, None)], [("N", "ZZZZ"), ("Y", ":"), ("N", "A")],
+            [("C", 0, 1, 0, 2), ("Y", ":"), ("N", "C")], [("N", "A"), ("Y", ":"), ("C", 0, 1, 0, 2)],
+        ])
 
     def operand(self, depth):
         rng = self.rng
         x = rng.random()
+        if self.stream == "colon" and (not self.used_stream or x < 0.1):
+            return self.colon_text()
         if x < 0.36:
             ts = [self.ref()]
             if rng.random() < 0.25:
@@ -307,7 +324,7 @@ class FormulaGen:
                 return ts
         extra = {"whole": lambda: [("F", "SUM"), self.whole(), ("Y", ")")],
                  "sheet3d": lambda: [self.sheet_prefix(), self.ref()],
-                 "illegal": lambda: [self.name()]}[self.stream]
+                 "illegal": lambda: [self.name()], "colon": self.colon_text}[self.stream]
         self.used_stream = False
         return ts + [("Y", "+")] + extra()
 
